@@ -141,8 +141,25 @@ def replay(witness, ctx):
         loaded.unload()
 
 
+def run_probes(ctx, prefix):
+    """Open known findings: reproduce each on its fixed witness (shard 0 only)."""
+    from vf.props import c01_probes
+
+    for key, fn in c01_probes.PROBES.items():
+        if not key.startswith(prefix):
+            continue
+        ctx.evals()
+        try:
+            if fn():
+                ctx.known_finding(key)
+        except Exception as e:  # noqa: BLE001
+            ctx.inconc(f"probe {key} failed to run: {type(e).__name__}: {e}")
+
+
 def run_shard(ctx):
     install_hooks(ctx)
+    if ctx.shard == 0:
+        run_probes(ctx, "C01/")
     n_models = ctx.per_shard(ctx.pick(7000, 160000))
     min_d = MIN_DISTINCT[ctx.tier] // ctx.nshards + 1
     k = 0
